@@ -2,6 +2,14 @@
 
 package vh
 
-import "net/url"
+import (
+	"net/http"
+	"net/url"
+)
 
 func verifSetQuery(u *url.URL, v url.Values) { u.RawQuery = v.Encode() }
+func verifMoveCookies(dst, src *http.Request) {
+	for _, c := range src.Cookies() {
+		dst.AddCookie(c)
+	}
+}
